@@ -28,7 +28,7 @@ class RTSim(mosaik_api_v3.Simulator):
         super().__init__({'api_version': '3.0', 'type': 'time-based', 'models': {'M': {'public': True, 'params': [], 'attrs': ['i', 'po', 'ti']}}})
     def init(self, sid, time_resolution=1.0, step_size=1, duration=0.0, typ='time-based', events=None, self_steps=True, flag=True, external=None, durations=None):
         self.durs = durations or {}        # per step time: how long that step takes (overrides duration)
-        self.sid = sid; self.ss = step_size; self.dur = duration; self.events = events or {}; self.self_steps = self_steps
+        self.sid = sid; self.ss = step_size; self.dur = duration; self.events = dict(events or {}); self.self_steps = self_steps
         self.external = external or []        # [(seconds after setup_done, event time)]: set_event calls made from OUTSIDE a step (an external event source)
         self.meta['type'] = typ
         if typ == 'event-based': self.meta['models']['M']['attrs'] = ['ti', 'po']
@@ -45,7 +45,7 @@ class RTSim(mosaik_api_v3.Simulator):
         asyncio.ensure_future(self.mosaik.set_event(ev)).add_done_callback(done)
     def step(self, t, inputs, max_advance):
         LOG.append(('BEGIN', self.sid, t, asyncio.get_event_loop().time()))
-        for ev in self.events.get(str(t), []):
+        for ev in self.events.pop(str(t), []):        # (each list is used once: a re-step at the same time does not ask again)
             try:
                 yield self.mosaik.set_event(ev)
                 LOG.append(('SETEVENT', self.sid, t, ev, 'ok'))
@@ -123,12 +123,17 @@ def monitor(cfg, r):
     if instant and r['too_slow']: bad.append(f"simulators answer instantly but {r['too_slow']} too-slow reports were issued")
     if instant and r['outcome'].startswith('RuntimeError'): bad.append('rt_strict aborted a run whose simulators answer instantly')
     # external events: a future t < until causes a step at t; t >= until is ignored with a warning
-    for l in r['log']:
+    for n_, l in enumerate(r['log']):
         if l[0] == 'SETEVENT' and l[4] == 'ok':
             _, sid, t0, ev, _ = l
+            inside = not isinstance(t0, tuple)
             if isinstance(t0, tuple): t0 = math.ceil(t0[1] / rr)       # an external call made `delay` seconds after the start: the clock then shows ceil(delay / rr)
             stepped = any(b[1] == sid and b[2] == ev for b in begins)
             if t0 < ev < until and not stepped and r['outcome'] == 'returned': bad.append(f'{sid}: set_event({ev}) at step {t0} did not cause a step at {ev}')
+            if inside and ev == t0 and ev < until and r['outcome'] == 'returned' and not any(x[0] == 'BEGIN' and x[1] == sid and x[2] == ev for x in r['log'][n_ + 1:]):
+                # an event for the time of the step that is being performed: it was accepted (no error, no warning), so the
+                # simulator must be stepped at that time once more
+                bad.append(f'{sid}: set_event({ev}) made during the step at {t0} was accepted but no further step at {ev} followed')
             if ev >= until and stepped: bad.append(f'{sid}: event at {ev} >= until was executed')
     n_late = sum(1 for l in r['log'] if l[0] == 'SETEVENT' and l[4] == 'ok' and l[3] >= until)
     if n_late and not r['ignored']: bad.append('an event at or after until was ignored without a warning')
@@ -160,6 +165,12 @@ def configs(tier, rng):
             out.append(dict(rt=rt, res=1.0, until=10, strict=False, sims=[dict(ctl, initial=False, external=[(1.5 * rt, 4), (1.75 * rt, 7)])], connect=[]))
             out.append(dict(rt=rt, res=1.0, until=10, strict=False, sims=[dict(ctl, external=[(3.5 * rt, 6)]), {'step_size': 3}], connect=[(0, 1)]))
             out.append(dict(rt=rt, res=1.0, until=9, strict=False, sims=[dict(ctl, events={'0': [3]}), {}], connect=[]))
+    for rt in rts:
+        # an event for the very time of the step in progress (a re-step "now"), alone and together with later ones
+        ev = {'typ': 'event-based', 'self_steps': False}
+        out.append(dict(rt=rt, res=1.0, until=6, strict=False, sims=[dict(ev, events={'0': [1], '1': [1, 3]}), {}], connect=[]))
+        out.append(dict(rt=rt, res=0.5, until=6, strict=False, sims=[dict(ev, group=True, events={'0': [2], '2': [2]}), {'step_size': 2}], connect=[(0, 1)]))
+        out.append(dict(rt=rt, res=1.0, until=5, strict=False, sims=[dict(ev, events={'0': [0, 2]})], connect=[]))
     for rt in rts:
         # several external events pending at once, requested out of order
         ev = {'typ': 'event-based', 'self_steps': False}
